@@ -715,6 +715,22 @@ func (e *specEnv) call(n *ast.CallExpr) SV {
 				}
 				return SV{V: TV{SBool, fmt.Sprintf("(forall ((%s Int)) (! %s%s))", bv, tImp(rng, body), ps.String())}}
 			}
+			// every index is the bound variable plus a constant (a quantifier over a window of a
+			// longer sequence after slice folding): quantify over the shifted variable instead, so
+			// that a plain index term can be the trigger
+			if c, ok := shiftedIndex(body, bv); ok {
+				full := tImp(rng, body)
+				q2 := bv + "s"
+				shifted := strings.ReplaceAll(full, "(+ "+bv+" "+c+")", q2)
+				shifted = replaceWord(shifted, bv, "(- "+q2+" "+c+")")
+				if pats := idxPatterns(shifted, q2); len(pats) > 0 {
+					var ps strings.Builder
+					for _, p := range pats {
+						ps.WriteString(" :pattern (" + p + ")")
+					}
+					return SV{V: TV{SBool, fmt.Sprintf("(forall ((%s Int)) (! %s%s))", q2, shifted, ps.String())}}
+				}
+			}
 			return SV{V: TV{SBool, fmt.Sprintf("(forall ((%s Int)) %s)", bv, tImp(rng, body))}}
 		}
 		return SV{V: TV{SBool, fmt.Sprintf("(exists ((%s Int)) %s)", bv, tAnd(rng, body))}}
@@ -955,6 +971,43 @@ func constToTerm(c constant.Value) (string, bool) {
 }
 
 var _ = strings.TrimSpace
+
+// shiftedIndex: the numeral c of the first index term of the form (S_idx s (+ bv c)) in body.
+func shiftedIndex(body, bv string) (string, bool) {
+	needle := " (+ " + bv + " "
+	i := strings.Index(body, needle)
+	for i >= 0 {
+		rest := body[i+len(needle):]
+		j := strings.IndexByte(rest, ')')
+		if j > 0 && isNumLit(rest[:j]) && strings.HasPrefix(rest[j:], "))") {
+			// the enclosing term must be an index term: walk back to its head
+			depth, k := 0, i
+			for k >= 0 {
+				if body[k] == ')' {
+					depth++
+				} else if body[k] == '(' {
+					if depth == 0 {
+						break
+					}
+					depth--
+				}
+				k--
+			}
+			if k >= 0 {
+				head := body[k+1:]
+				if sp := strings.IndexByte(head, ' '); sp > 0 && strings.HasSuffix(head[:sp], "_idx") {
+					return rest[:j], true
+				}
+			}
+		}
+		n := strings.Index(body[i+1:], needle)
+		if n < 0 {
+			break
+		}
+		i += 1 + n
+	}
+	return "", false
+}
 
 // idxPatterns: E-matching triggers for a bounded quantifier: the sequence
 // index terms whose index is exactly the bound variable.
